@@ -42,8 +42,12 @@ func (ex *Exec) stepCall(st *State, c *ssa.Call) []*State {
 	case *ssa.Function:
 		return ex.callStatic(st, c, callee, args)
 	case *ssa.MakeClosure:
-		if fn, ok := callee.Fn.(*ssa.Function); ok && len(callee.Bindings) == 0 {
-			return ex.callStatic(st, c, fn, args)
+		if fn, ok := callee.Fn.(*ssa.Function); ok {
+			// a function literal called where it is written
+			ex.curBinds = ex.val(st, callee).Tuple
+			forks := ex.callStatic(st, c, fn, args)
+			ex.curBinds = nil
+			return forks
 		}
 	}
 	ex.failObl("subset", "dynamic-call", "call through a function value", ex.fnTags(), c)
@@ -357,10 +361,19 @@ func (ex *Exec) callContract(st *State, c *ssa.Call, callee *ssa.Function, args 
 		return nil
 	}
 	if fc == nil {
+		binds := ex.curBinds
 		if forks, ok := ex.inlineCall(st, c, callee, args); ok {
 			return forks
 		}
 		ex.failObl("contract", "uncontracted-callee/"+name, "in-package callee without contract", ex.fnTags(), c)
+		// a function literal may write the variables it captured
+		for _, b := range binds {
+			if b.K == KPtr && b.Ptr.Kind == PCell {
+				if sv, ok := st.cells[b.Ptr.Cell]; ok {
+					st.cells[b.Ptr.Cell] = ex.havocSV(st, "h_"+b.Ptr.Cell.Comment, sv, b.Ptr.Cell)
+				}
+			}
+		}
 		st.vals[c] = ex.freshOfType(st, "r_"+callee.Name(), c.Type(), false)
 		// unknown result; only what the callee may write (syntactic may-write set) is forgotten
 		touch, globals := ex.p.touchOf(callee)
@@ -516,25 +529,10 @@ func (ex *Exec) freshResult(st *State, base string, t types.Type) SV {
 // depth of three. Its safety obligations are generated at the call site's
 // function; its locals disappear when it returns.
 func (ex *Exec) inlineCall(st *State, c *ssa.Call, callee *ssa.Function, args []SV) ([]*State, bool) {
-	if c == nil || ex.inlineDepth >= 3 || callee.Blocks == nil || len(st.defers) > 0 || len(callee.FreeVars) > 0 {
+	binds := ex.curBinds
+	ex.curBinds = nil
+	if ex.inlineDepth >= 3 || !inlinable(callee) || len(binds) != len(callee.FreeVars) {
 		return nil, false
-	}
-	for _, b := range callee.Blocks {
-		for _, s := range b.Succs {
-			if s.Dominates(b) {
-				return nil, false // a loop needs an invariant, hence a contract
-			}
-		}
-		for _, in := range b.Instrs {
-			switch v := in.(type) {
-			case *ssa.Defer, *ssa.Go:
-				return nil, false
-			case *ssa.Call:
-				if f, ok := v.Call.Value.(*ssa.Function); ok && f == callee {
-					return nil, false
-				}
-			}
-		}
 	}
 	if len(args) != len(callee.Params) {
 		return nil, false
@@ -542,8 +540,15 @@ func (ex *Exec) inlineCall(st *State, c *ssa.Call, callee *ssa.Function, args []
 	for i, p := range callee.Params {
 		st.vals[p] = args[i]
 	}
+	for i, fv := range callee.FreeVars {
+		st.vals[fv] = binds[i]
+	}
+	// loops of the helper get guessed clauses (infer.go)
+	ex.addLoops(callee)
 	var rets []inlineRet
 	saved := ex.collector
+	savedDefers := st.defers
+	st.defers = nil
 	ex.collector = &rets
 	ex.inlineDepth++
 	ex.runBlock(st, callee.Blocks[0], 0)
@@ -552,18 +557,21 @@ func (ex *Exec) inlineCall(st *State, c *ssa.Call, callee *ssa.Function, args []
 	var out []*State
 	for _, r := range rets {
 		s := r.st
+		s.defers = savedDefers
 		for a := range s.cells {
 			if a.Parent() == callee {
 				delete(s.cells, a)
 			}
 		}
-		switch len(r.results) {
-		case 0:
-			s.vals[c] = SV{K: KUnit}
-		case 1:
-			s.vals[c] = r.results[0]
-		default:
-			s.vals[c] = SV{K: KTuple, Tuple: r.results}
+		if c != nil {
+			switch len(r.results) {
+			case 0:
+				s.vals[c] = SV{K: KUnit}
+			case 1:
+				s.vals[c] = r.results[0]
+			default:
+				s.vals[c] = SV{K: KTuple, Tuple: r.results}
+			}
 		}
 		out = append(out, s)
 	}
